@@ -57,6 +57,14 @@ type SPtr struct {
 	PBs *[]byte
 	PIn *SInner
 	PT  *time.Time
+	// several pointers of each narrow type: allocations of one type from one bank must not overlap
+	PI3b  *int32
+	PI3c  *int32
+	PI16  *int16
+	PI16b *int16
+	PF3b  *float32
+	PBb   *bool
+	PBc   *bool
 }
 
 type SColl struct {
